@@ -55,6 +55,7 @@ const (
 )
 
 type runner struct {
+	traceAll bool
 	env                          *core.Env
 	res                          *core.Result // nil when replaying / minimising
 	b                            *body
@@ -80,7 +81,7 @@ type runner struct {
 var scratchBase = fmt.Sprintf("/dev/shm/verif-e4-%d", os.Getpid())
 
 func (r *runner) logf(format string, a ...any) {
-	if r.verbose && len(r.trace) < 400 {
+	if r.verbose && (r.traceAll || len(r.trace) < 400) {
 		r.trace = append(r.trace, fmt.Sprintf(format, a...))
 	}
 }
@@ -110,6 +111,9 @@ func (r *runner) failed() bool { return r.sig != "" }
 
 func (r *runner) mix(parts ...uint64) {
 	r.runHash = core.Mix(append([]uint64{r.runHash}, parts...)...)
+	if r.traceAll {
+		r.logf("   mix %x", parts)
+	}
 }
 
 func (r *runner) fault(k string, n int64) {
